@@ -579,7 +579,8 @@ func runC01(c *Ctx) {
 		}
 		c.Check("C01-R1", "fetchCredits-has-lease-and-spender-switches", fc.Pos(), nRole[0] >= 1 && nRole[1] >= 1,
 			"fetchCredits has no boolean switch gating its lease test and/or its unconfirmed-spender test: the spendable set and the watch set cannot both be served")
-		for _, cs := range p.callers(fc) {
+		for _, site := range p.forwardedFlagSites(fc) {
+			cs := site.Decider()
 			caller := cs.Parent().Name()
 			w, ok := want[caller]
 			if !ok {
@@ -593,7 +594,15 @@ func runC01(c *Ctx) {
 			}
 			sort.Strings(flags)
 			for _, x := range flags {
-				b, isConst := flagValueAt(fc, cs, x)
+				b, isConst := flagValueAt(fc, site.Inner, x)
+				if !isConst && site.Outer != nil {
+					// the flags travel in a struct the role's function hands to a forwarding part
+					if ic, isCall := site.Inner.(*ssa.Call); isCall {
+						if a := p.argNamed(ic, x, -1); a != nil {
+							b, isConst = p.constBoolVia(a, site.Outer)
+						}
+					}
+				}
 				c.Check("C01-R1", fmt.Sprintf("flag-binding:%s.%s", caller, x), cs.Pos(), isConst && b == w[roles[x]],
 					fmt.Sprintf("%s must call fetchCredits with %s=%v (spendable-set vs watch-set semantics)", caller, x, w[roles[x]]))
 			}
